@@ -203,12 +203,12 @@ namespace riddle
     }
 
     void error(const std::string &err);
-    char next_char() noexcept;
+    int next_char() noexcept;
 
   private:
     std::string sb;
     size_t pos = 0;
-    char ch;
+    int ch; // the current character (as an unsigned char value), or -1 at the end of the input..
     size_t start_line = 0;
     size_t start_pos = 0;
     size_t end_line = 0;
